@@ -36,8 +36,8 @@ CHECKS = {
              "src/__*.gdn x wrong type per argument / arity-1 / arity+1 / wrong receiver, every binary operator x wrong "
              "side, 44 language-level errors incl. unknown type hints) x 11 placements x 3 resume histories is run in a fresh simulated session; "
              "every :resume must stop again with the same message, position and frame, re-execute the same step, print "
-             "nothing, and an interrupt landing inside a resume must be reported. Sampled over placements in the quick "
-             "tier, complete over (site x placement) in the thorough tier.",
+             "nothing, and an interrupt landing inside a resume must be reported. Five placements per site in the quick "
+             "tier (function frame, toplevel, three seeded), complete over (site x placement) in the thorough tier.",
         note="Site list is derived from the repository's own .gdn declarations plus a hand-written list of language-level "
              "errors; errors only reachable through other paths are not covered.",
         design_ref="DESIGN.md section 3, C07",
